@@ -1,6 +1,11 @@
 """Which lemma files, static obligations and bounded stand-ins decide which property."""
 
 PROPS = {
+    "C02": {
+        "level": "proof",
+        "lemma_files": ["contracts/engine_laws.py"],
+        "conformance": [],
+    },
     "C13": {
         "level": "proof",
         "lemma_files": ["contracts/path_laws.py"],
